@@ -26,7 +26,9 @@ class Monitor(object):
 
     def on_sample(self, menu, t, ind, v):
         if menu.kind == "srv" and ind is not None:
-            self.samples.setdefault((menu.node, ind.id_number), []).append((t, v))
+            # (the number of records the customer has when the sample is drawn tells which visit it belongs to: the
+            #  service record of a visit is written before the customer is accepted - and sampled for - anywhere else)
+            self.samples.setdefault((menu.node, ind.id_number), []).append((t, v, len(ind.data_records)))
 
     def on_route(self, kind, ind, node_id, dest, pre):
         if kind == "reroute":
@@ -105,17 +107,19 @@ class Monitor(object):
 
     def visit(self, ind, r, opt):
         """time identities of one completed visit at a pre-emptive node"""
-        # the samples of THIS visit: those not attributed to an earlier visit of the same node and drawn no later than
-        # the final service start (a customer that comes straight back draws its next sample at this visit's exit instant)
-        if not hasattr(self, "used"):
-            self.used = {}
-        allsmp = self.samples.get((r.node, r.id_number), [])
-        k0 = self.used.get((r.node, r.id_number), 0)
-        smp = [(t, v) for (t, v) in allsmp[k0:] if r.arrival_date <= t <= r.service_start_date]
-        self.used[(r.node, r.id_number)] = k0 + len(smp)
-        recs = [x for x in ind.data_records if x.node == r.node and x.arrival_date == r.arrival_date
-                and x.record_type in ("interrupted service", "service") and x.exit_date <= r.exit_date]
-        inter = [x for x in recs if x.record_type == "interrupted service"]
+        recs_all = ind.data_records
+        idx = max(k for k, x in enumerate(recs_all) if x is r)
+        lo = idx
+        while lo > 0:
+            x = recs_all[lo - 1]
+            in_place = (x.record_type == "interrupted service" and x.node == r.node
+                        and isinstance(x.destination, float) and x.destination != x.destination)
+            if not in_place:
+                break
+            lo -= 1
+        inter = recs_all[lo:idx]
+        # the samples of THIS visit: drawn while the customer had between lo and idx records
+        smp = [(t, v) for (t, v, n) in self.samples.get((r.node, r.id_number), []) if lo <= n <= idx]
         if not inter:
             return
         if r.node in self.sched:
